@@ -244,3 +244,74 @@ func ruleL2(p *Prog, r *Report) {
 func constPartTop(v ssa.Value, st stateAssume) (int64, bool) {
 	return constPart(v, st, 0, map[ssa.Value]bool{})
 }
+
+// L11 decoded-field coverage: every slab literal built by a decoder initialises every field the in-memory
+// code maintains for that state (standalone: all but `inlined`; inlined: header, elements, extraData, inlined).
+func ruleL11(p *Prog, r *Report) {
+	const R = "L11"
+	scope, _ := p.decodeScope()
+	required := map[string]map[bool][]string{
+		"ArrayDataSlab":     {false: {"next", "header.slabID", "header.size", "header.count", "elements", "extraData"}, true: {"header.slabID", "header.size", "header.count", "elements", "extraData", "inlined"}},
+		"MapDataSlab":       {false: {"next", "header.slabID", "header.size", "header.firstKey", "elements", "extraData", "anySize", "collisionGroup"}, true: {"header.slabID", "header.size", "header.firstKey", "elements", "extraData", "inlined"}},
+		"ArrayMetaDataSlab": {false: {"header.slabID", "header.size", "header.count", "childrenHeaders", "childrenCountSum", "extraData"}},
+		"MapMetaDataSlab":   {false: {"header.slabID", "header.size", "header.firstKey", "childrenHeaders", "extraData"}},
+		"StorableSlab":      {false: {"slabID", "storable"}},
+	}
+	n := 0
+	for _, f := range sortedFuncs(p, scope) {
+		eachInstr(f, func(in ssa.Instruction) {
+			al, ok := in.(*ssa.Alloc)
+			if !ok {
+				return
+			}
+			nt := rootNamed(al.Type())
+			if nt == nil || required[nt.Obj().Name()] == nil {
+				return
+			}
+			// skip parameter spills / value receivers
+			for _, ref := range *al.Referrers() {
+				if st, ok := ref.(*ssa.Store); ok && st.Addr == ssa.Value(al) {
+					if _, isP := st.Val.(*ssa.Parameter); isP {
+						return
+					}
+				}
+			}
+			inl := false
+			if v := litField(f, al, "inlined"); v != nil {
+				if c, ok := v.(*ssa.Const); ok && c.Value != nil && c.Value.String() == "true" {
+					inl = true
+				}
+			}
+			need := required[nt.Obj().Name()][inl]
+			if need == nil {
+				return
+			}
+			n++
+			var missing []string
+			for _, path := range need {
+				parts := splitDot(path)
+				if litField(f, al, parts...) == nil {
+					missing = append(missing, path)
+				}
+			}
+			cons := fmt.Sprintf("decoded-fields:%s:%s:inlined=%v", p.Name(f), nt.Obj().Name(), inl)
+			r.Decide(len(missing) == 0, R, cons, p.InstrPos(in), fmt.Sprintf("all %d maintained fields are restored by the decoder", len(need)),
+				"the decoder does not restore field(s) "+fmt.Sprint(missing)+": a slab reloaded from the ledger would differ from the in-memory slab that was stored")
+		})
+	}
+	r.Floor(R, "slab literals in decoders", 8, n)
+}
+
+func splitDot(s string) []string {
+	var out []string
+	cur := ""
+	for _, ch := range s {
+		if ch == '.' {
+			out = append(out, cur)
+			cur = ""
+		} else {
+			cur += string(ch)
+		}
+	}
+	return append(out, cur)
+}
